@@ -50,6 +50,7 @@ fn dispatch(entry: &str, spec: &Value) -> Result<Option<String>, String> {
         "decode" => decode::run(spec),
         "framed" => framed::run(spec),
         "compose" => compose::run(spec),
+        "ss_chunk_limit" => compose::ss_chunk_limit(spec),
         "address_roundtrip" => address::roundtrip(spec),
         "validate_timestamp" => c10::validate_timestamp(spec),
         "vmess_matching" => c10::vmess_matching(spec),
